@@ -11,6 +11,7 @@ NOTE = ("Trusted base: z3 5.1; the engine's fork/replay logic; the numpy/pandas 
         "lru_cache/joblib transparency; the size bounds listed in the evidence file.")
 
 CLAIMED = {
+    "C20": ("2 (C20)", "Thirteen classes of malformed input pushed through the public entry points (fit / update / predict of forecasters and composites, splitters, evaluate, grid search, temporal_train_test_split, the horizon constructor) with the offending quantity symbolic (index labels, exogenous index offsets, horizon values, window / step / period, window vs. series length) or drawn from a finite list of type faults; on every path: rejected iff invalid, exception type in {ValueError, TypeError, NotImplementedError}, is_fitted False afterwards, valid twin accepted."),
     "C03": ("2 (C03)", "Sixteen forecaster kinds (naive variants, polynomial trend, statsmodels adapter, the four reducers, ensemble, pipeline, stacking, multiplexer, grid search) run symbolically with relative or absolute horizons given at fit or at predict, optionally after an update, for symbolic values and a symbolic integer index origin: one value per step, index = cutoff + fh, increasing, cutoff = last label after fit/update, finite values, and for the non-stub forecasters a second run at origin + delta (delta symbolic) proves shift invariance."),
     "C13": ("2 (C13)", "Deseasonalizer / ConditionalDeseasonalizer (symbolic seasonal vector, free integer offsets of the transformed and of an update stretch), Detrender (stub forecaster and exact least-squares default), Box-Cox / log (uninterpreted inverse pairs), TabularToSeriesAdaptor, OptionalPassthrough executed symbolically: inverse(transform(z)) = z, output index = input index, seasonal phase = position modulo sp relative to the training series before and after update, fit_transform = fit+transform; Hampel filter and Imputer rules proved invariant under a symbolic shift of the index."),
     "C10": ("2 (C10)", "Enumerated call programs over {update(T/F), predict, update_predict_single, update_predict} after fit, each executed symbolically (batch sizes, overlap, horizon, fh-at-fit flag forked; values and index origin symbolic) on NaiveForecaster variants, a custom-update member, an ensemble and a pipeline; remembered data = union with later values winning, cutoffs, forecasts equal to a fresh fit on the union (or to the old fitted state from the new cutoff), update_predict = the single-step sequence of a twin, cutoff restored."),
